@@ -76,6 +76,7 @@ type c15 struct {
 	h            *hist
 	seen         map[allocHandle]string
 	serverClosed bool
+	evBefore     int
 }
 
 // invariants evaluates every C15 oracle at a quiescent point.
@@ -245,7 +246,81 @@ func runC15(t *testing.T, rng *rand.Rand, rec *sim.Rec, tier string, caseNo int)
 	}
 	h := newHist(t, rng, rec, k)
 	x := &c15{h: h, seen: map[allocHandle]string{}}
-	x.run(rng, caseNo)
+	switch caseNo % 8 {
+	case 5:
+		x.runLateReadLoop(rng)
+	case 6:
+		x.runSlowCreatedCallback(rng)
+	default:
+		x.run(rng, caseNo)
+	}
+}
+
+// runLateReadLoop: Refresh 0 followed at once by a new Allocate on the same 5-tuple while the old
+// relay socket's read loop notices the close only later (it is scheduled late). The successor must
+// survive the predecessor's late teardown with all its resources, and vice versa.
+func (x *c15) runLateReadLoop(rng *rand.Rand) {
+	h := x.h
+	w, m, rec := h.w, h.m, h.rec
+	defer w.Shutdown()
+	w.Gen.CloseNoticeDelay = time.Duration(100+rng.Intn(900)) * time.Millisecond
+	c := h.clients[0]
+	if c.IsTCP {
+		return
+	}
+	rounds := 1 + rng.Intn(3)
+	for i := 0; i < rounds && len(rec.Violations()) == 0; i++ {
+		r := m.Allocate(c, sim.AllocOpts{})
+		if r == nil || r.Class != 2 {
+			if a, st := m.Alloc(c); a == nil || st != sim.Live {
+				return
+			}
+		}
+		if rng.Intn(2) == 0 {
+			h.actor = c
+			m.CreatePermission(c, h.peers[0].Addr)
+		}
+		x.collectHandles()
+		m.Refresh(c, sim.U32(0))
+		// no pause: the old read loop has not yet seen its socket close
+		m.Allocate(c, sim.AllocOpts{Lifetime: sim.U32(uint32(600 + rng.Intn(600)))})
+		x.collectHandles()
+		w.Sleep(2 * time.Second) // now it has
+		x.invariants(fmt.Sprintf("round %d: successor after the predecessor's late read-loop exit", i))
+		if rng.Intn(2) == 0 {
+			m.Refresh(c, sim.U32(0))
+			w.Sleep(2 * time.Second)
+			x.invariants("after deleting the successor")
+		}
+	}
+	rec.FP("teardown/late-read-loop/rounds=%d", rounds)
+	x.finish("late-read-loop")
+}
+
+// runSlowCreatedCallback: the allocation-created callback takes longer than the allocation's own
+// lifetime. Whatever the client was told, shortly after both have passed the allocation must be
+// gone with everything it owned.
+func (x *c15) runSlowCreatedCallback(rng *rand.Rand) {
+	h := x.h
+	w, m, rec := h.w, h.m, h.rec
+	defer w.Shutdown()
+	c := h.clients[0]
+	life := uint32(1 + rng.Intn(3))
+	delay := time.Duration(life)*time.Second + time.Duration(500+rng.Intn(3000))*time.Millisecond
+	w.SetEventDelay("alloc+", delay)
+	m.Allocate(c, sim.AllocOpts{Lifetime: sim.U32(life)})
+	w.SetEventDelay("alloc+", 0)
+	x.collectHandles()
+	// the statement does not say what the client may assume when the callback outlives the lifetime;
+	// it does say that an expired allocation holds nothing: judge only after both have passed
+	w.Sleep(delay + time.Duration(life)*time.Second + 5*time.Second)
+	if a, _ := m.Alloc(c); a != nil {
+		a.Gone = true
+	}
+	x.collectHandles()
+	x.invariants("after lifetime and slow created-callback have both passed")
+	rec.FP("teardown/slow-created-callback/life=%d", life)
+	x.finish("slow-created-callback")
 }
 
 func (x *c15) run(rng *rand.Rand, caseNo int) {
@@ -392,6 +467,14 @@ func (x *c15) run(rng *rand.Rand, caseNo int) {
 		}
 	}
 	rec.FP("teardown/%s/slow=%s", cause, slow)
+	x.finish(cause)
+	rec.SetSample(map[string]any{"base_steps": n, "cause": cause, "slow_callback": slow, "events": x.evBefore, "resources": len(w.Gen.Resources())})
+}
+
+// finish: Server.Close, clients close their sockets; nothing may remain or happen afterwards.
+func (x *c15) finish(cause string) {
+	h := x.h
+	w, m, rec := h.w, h.m, h.rec
 	// finally: Server.Close, clients close their sockets; nothing may remain or happen afterwards
 	_ = w.Srv.Close()
 	x.serverClosed = true
@@ -408,6 +491,7 @@ func (x *c15) run(rng *rand.Rand, caseNo int) {
 	w.Sleep(8 * time.Second)
 	w.Net.TakeSendLog()
 	evBefore, logBefore := len(w.Events()), w.Log.TotalCalls()
+	x.evBefore = evBefore
 	x.invariants("after Server.Close")
 	if n := w.Srv.AllocationCount(); n != 0 {
 		rec.Violate("remains-after-close", "allocations", "AllocationCount=%d after Server.Close", n)
@@ -435,7 +519,6 @@ func (x *c15) run(rng *rand.Rand, caseNo int) {
 	if sl := w.Net.TakeSendLog(); len(sl) > 0 {
 		rec.Violate("activity-after-close", "datagram", "%d datagrams were sent during two hours after Server.Close", len(sl))
 	}
-	rec.SetSample(map[string]any{"base_steps": n, "cause": cause, "slow_callback": slow, "events": evBefore, "resources": len(w.Gen.Resources())})
 }
 
 func init() {
